@@ -57,4 +57,89 @@ theorem drvResp_bad_search (s : St) (f : Frame) (c : Nat) (hr : s.drv = .running
     simp [h5, hg]
   · simp [h5]
 
+/-! ### item 2: Abandon of a search closes the stream's channel -/
+
+/-- a result that is there is still there after any step (`ResKeep`, as a statement about `bind`) -/
+theorem resKeep_bind {ops ops' : List Op} (h : ResKeep ops ops') (j : Nat) (r : Res)
+    (hj : (ops[j]?.bind (·.res)) = some r) : (ops'[j]?.bind (·.res)) = some r := by
+  cases ho : ops[j]? with
+  | none => rw [ho] at hj; cases hj
+  | some o =>
+    rw [ho] at hj
+    simp only [Option.bind_some] at hj
+    obtain ⟨o', ho', hk⟩ := h j o ho
+    rw [ho']
+    simp only [Option.bind_some]
+    rw [hk (by rw [hj]; rfl), hj]
+
+/-- all entries of the search map that point at one channel carry the same key -/
+theorem sm_chan_key {s : St} (ha : Acct s) {p q : Nat × Nat} (hp : p ∈ s.searchmap) (hq : q ∈ s.searchmap)
+    (e : p.2 = q.2) : p.1 = q.1 := by
+  obtain ⟨ch1, o1, hc1, ho1, hid1, _⟩ := ha.smOk p hp
+  obtain ⟨ch2, o2, hc2, ho2, hid2, _⟩ := ha.smOk q hq
+  rw [e, hc2] at hc1; cases hc1
+  rw [ho2] at ho1; cases ho1
+  rw [← hid1, ← hid2]
+
+/-- the owner of a channel that is registered in the search map is not waiting in the op queue -/
+theorem sm_chan_not_queued {s : St} (ha : Acct s) (hri : RouteInv s) {t c : Nat} (hmem : (t, c) ∈ s.searchmap)
+    (j : Nat) (hj : j ∈ s.opQ) (o : Op) (ho : s.ops[j]? = some o) : o.chan ≠ some c := by
+  intro hch
+  obtain ⟨ch, o1, hc, ho1, _, _, hph, _⟩ := ha.smOk (t, c) hmem
+  obtain ⟨ch', hc', hidx⟩ := hri.chanOf j o c ho hch
+  simp only at hc
+  rw [hc] at hc'; cases hc'
+  rw [hidx, ho] at ho1; cases ho1
+  obtain ⟨o2, ho2, hq⟩ := ha.qPhase j hj
+  rw [ho] at ho2; cases ho2
+  rw [hph] at hq; cases hq
+
+/-- no sender is left for channel `c` once the entries under key `t` are erased and the queue is
+not longer, whatever tame change the operations undergo -/
+theorem chanOpen_erase_false {s s' : St} (ha : Acct s) (hri : RouteInv s) {t c : Nat} (hmem : (t, c) ∈ s.searchmap)
+    (hsm : s'.searchmap = erase s.searchmap (t : Int)) (hq : ∀ j ∈ s'.opQ, j ∈ s.opQ) (hops : Tame s.ops s'.ops) :
+    chanOpen s' c = false := by
+  unfold chanOpen
+  rw [Bool.or_eq_false_iff]
+  constructor
+  · rw [List.any_eq_false]
+    intro p hp
+    rw [hsm] at hp
+    obtain ⟨hp1, hp2⟩ := mem_erase hp
+    intro e
+    simp only [beq_iff_eq] at e
+    have := sm_chan_key ha hp1 hmem e
+    exact hp2 (by rw [this])
+  · rw [List.any_eq_false]
+    intro j hj
+    cases ho' : s'.ops[j]? with
+    | none => simp
+    | some o' =>
+      obtain ⟨o, ho, hsig, _⟩ := hops.2 j o' ho'
+      have hne := sm_chan_not_queued ha hri hmem j (hq j hj) o ho
+      have : o'.chan = o.chan := (sig_id hsig).2.2
+      simp only [beq_iff_eq]
+      rw [this]; exact hne
+
+theorem drvOp_abandon_closes (s : St) (ha : Acct s) (hri : RouteInv s) (i : Nat) (rest : List Nat) (o : Op) (t c : Nat)
+    (hr : s.drv = .running) (hq : s.opQ = i :: rest) (ho : s.ops[i]? = some o) (hk : o.kind = .abandon (t : Int))
+    (hin : s.inUse.contains o.id = true) (hmem : (t, c) ∈ s.searchmap) :
+    ∃ s', Conn.step s (.drvOp true) = some (s', .none) ∧ chanOpen s' c = false ∧ s'.chans = s.chans ∧
+      ResKeep s.ops s'.ops ∧ s'.drv = .running := by
+  have hst : ∃ s', Conn.step s (.drvOp true) = some (s', .none) ∧ s'.chans = s.chans ∧ s'.drv = .running ∧
+      s'.searchmap = erase s.searchmap (t : Int) ∧ s'.opQ = rest ∧
+      s'.ops = modifyOp (dropSenderOpt (s.ops.set i { o with phase := .taken }) (lookup s.resultmap (t : Int))) i
+        (fun o => { o with mail := .ack }) := by
+    have hne : (s.drv ≠ .running) = False := by simp [hr]
+    simp only [Conn.step, hne, if_false, hq, ho, hk, hin, Bool.not_true, Bool.false_eq_true]
+    exact ⟨_, rfl, rfl, hr, rfl, rfl, rfl⟩
+  obtain ⟨s', hs, hc, hd, hsm, hq', hops⟩ := hst
+  have htame : Tame s.ops s'.ops := by
+    rw [hops]
+    refine (tame_set s.ops i o { o with phase := .taken } ho rfl (fun f hf => hf)).trans ((tame_dropSenderOpt _ _).trans (tame_modify _ _ _ ?_))
+    intro x
+    exact ⟨rfl, fun f hf => by cases hf⟩
+  refine ⟨s', hs, ?_, hc, step_resKeep ha _ hs, hd⟩
+  exact chanOpen_erase_false ha hri hmem hsm (fun j hj => by rw [hq'] at hj; rw [hq]; simp [hj]) htame
+
 end Ldap3V.Conn
